@@ -354,6 +354,65 @@ impl Runner {
                     }
                     i += 1;
                 }
+                "parse_summary" => {
+                    // for inputs whose tree is too deep to be serialised: crash-freedom and the frame only
+                    let text = act["text"].as_str().unwrap_or("").to_string();
+                    let iset = &self.iset;
+                    let mut before = project(&st);
+                    before["exec"] = json!([]);
+                    let r = catch_unwind(AssertUnwindSafe(|| PushParser::parse_program(&mut st, iset, &text)));
+                    let mut ev = json!({"id": id, "i": i, "act": {"a": "parse_summary", "len": clamp_i32(text.len() as u128)}});
+                    if let Some(p) = first.take() {
+                        ev["pre"] = p;
+                    }
+                    match r {
+                        Ok(()) => {
+                            let n = st.exec_stack.size();
+                            st.exec_stack.flush();       // the deep tree is dropped iteratively by PushStack
+                            let after = project(&st);
+                            ev["ret"] = json!({"exec_len": n, "others_unchanged": after == before});
+                            ev["post"] = after;
+                            writeln!(out, "{}", ev).unwrap();
+                        }
+                        Err(e) => {
+                            ev["post"] = json!({"crash": "panic", "msg": panic_msg(e)});
+                            writeln!(out, "{}", ev).unwrap();
+                            { crashed = true; break 'acts; }
+                        }
+                    }
+                    i += 1;
+                }
+                "roundtrip" => {
+                    // print the top EXEC item, parse the text in a fresh state, print again
+                    let iset = &self.iset;
+                    let top = st.exec_stack.get(0).cloned();
+                    let r = catch_unwind(AssertUnwindSafe(|| {
+                        let p1 = top.as_ref().map(|t| t.to_string()).unwrap_or_default();
+                        let mut fresh = PushState::new();
+                        PushParser::parse_program(&mut fresh, iset, &p1);
+                        let t2: Vec<Value> = stack2vec(&fresh.exec_stack, item2j);
+                        let p2 = fresh.exec_stack.to_string();
+                        let untouched = fresh.code_stack.size() + fresh.int_stack.size() + fresh.name_stack.size()
+                            + fresh.float_stack.size() + fresh.bool_stack.size() == 0;
+                        json!({"p1": p1, "p2": p2, "t2": t2, "untouched": untouched})
+                    }));
+                    let mut ev = json!({"id": id, "i": i, "act": act, "post": project(&st)});
+                    if let Some(p) = first.take() {
+                        ev["pre"] = p;
+                    }
+                    match r {
+                        Ok(v) => {
+                            ev["ret"] = v;
+                            writeln!(out, "{}", ev).unwrap();
+                        }
+                        Err(e) => {
+                            ev["post"] = json!({"crash": "panic", "msg": panic_msg(e)});
+                            writeln!(out, "{}", ev).unwrap();
+                            { crashed = true; break 'acts; }
+                        }
+                    }
+                    i += 1;
+                }
                 "copy_to_code" => {
                     PushInterpreter::copy_to_code_stack(&mut st);
                     let mut ev = json!({"id": id, "i": i, "act": act, "post": project(&st)});
